@@ -513,10 +513,112 @@ theorem finalPass_ops1 {st : Init} {env : Env} (U : List GateDef) (hU : DefsOk U
 
 /-! ## the gate definitions: both passes -/
 
+theorem strDup_of_nodup (l : List Str) (h : l.Nodup) : strDup l = false := by
+  induction l with
+  | nil => rfl
+  | cons x xs ih =>
+    have := List.nodup_cons.mp h
+    simp [strDup, this.1, ih this.2]
+
+theorem foreignId_of_closed (params : List Str) (e : Expr) (hs : e.supported = true)
+    (h : e.closedIn params = true) : foreignId params e = false := by
+  induction e with
+  | id s => simpa [foreignId, Expr.closedIn] using h
+  | pow a b => simp [Expr.supported] at hs
+  | fn f e => simp [Expr.supported] at hs
+  | neg e ih =>
+    simpa [foreignId] using ih (by simpa [Expr.supported] using hs) (by simpa [Expr.closedIn] using h)
+  | add a b iha ihb | sub a b iha ihb | mul a b iha ihb | div a b iha ihb =>
+    simp only [Expr.supported, Bool.and_eq_true] at hs
+    simp only [Expr.closedIn, Bool.and_eq_true] at h
+    simp [foreignId, iha hs.1 h.1, ihb hs.2 h.2]
+  | _ => rfl
+
+/-- every name of the importer's arity table is a built-in name -/
+theorem sig_predefined : ∀ n sg, sigOf n = some sg → predefined n = true := by
+  intro n sg h
+  unfold sigOf at h
+  cases hg : Gen.gateSignatures with
+  | none => simp [hg] at h
+  | some t =>
+    simp only [hg, Option.map_eq_some_iff] at h
+    obtain ⟨e, he, _⟩ := h
+    have hmem := List.mem_of_find?_eq_some he
+    have hn : e.1 = n := by simpa using List.find?_some he
+    have hall : ∀ t', Gen.gateSignatures = some t' → ∀ e ∈ t', predefined e.1 = true := by decide
+    rw [← hn]
+    exact hall t hg e hmem
+
+/-- the parameter part of `_check_body_call` accepts supported expressions over the formal parameters -/
+theorem findSome_params_none (params : List Str) (ps : List Expr) (hsup : ps.all Expr.supported = true)
+    (hcl : ps.all (Expr.closedIn params) = true) :
+    (ps.findSome? fun e => if hasPow e then some Err.notImpl else if foreignId params e then some Err.name else none) =
+      none := by
+  rw [List.findSome?_eq_none_iff]
+  intro e he
+  have h1 := hasPow_of_supported e (List.all_eq_true.mp hsup e he)
+  have h2 := foreignId_of_closed params e (List.all_eq_true.mp hsup e he) (List.all_eq_true.mp hcl e he)
+  simp [h1, h2]
+
+/-- `_check_body_call` accepts a statement the standard accepts -/
+theorem bodyCheck_ok (rest : List GateDef) (hrest : DefsOk rest) (params qargs : List Str) (n : Str)
+    (ps : List Expr) (qs : List Str) (d : GateDef)
+    (hfind : (rest ++ qelib1.reverse).find? (fun x => x.name == n) = some d)
+    (hpl : ps.length = d.params.length) (hql : qs.length = d.qargs.length)
+    (hsup : ps.all Expr.supported = true) (hcl : ps.all (Expr.closedIn params) = true)
+    (hsub : ∀ x ∈ qs, x ∈ qargs) (hnd : qs.Nodup) :
+    bodyCheck (rest.map storeDef) params qargs n ps qs = none := by
+  have h1 : qs.all qargs.contains = true := by
+    rw [List.all_eq_true]; intro x hx; simpa using hsub x hx
+  have hexp : expectedSig (rest.map storeDef) n = some (d.params.length, d.qargs.length) := by
+    unfold expectedSig
+    rw [List.find?_append] at hfind
+    cases hfr : rest.find? (fun x => x.name == n) with
+    | some d' =>
+      rw [hfr] at hfind
+      simp only [Option.some_or, Option.some.injEq] at hfind
+      subst hfind
+      have hmem := List.mem_of_find?_eq_some hfr
+      have hnm : d'.name = n := by simpa using List.find?_some hfr
+      obtain ⟨pre, suf, hsplit⟩ := List.append_of_mem hmem
+      have hp : predefined n = false := by
+        rw [← hnm]; exact (defsOk_suffix pre (d' :: suf) (hsplit ▸ hrest)).2.1
+      have hs : sigOf n = none := by
+        cases hsg : sigOf n with
+        | none => rfl
+        | some sg => rw [sig_predefined n sg hsg] at hp; cases hp
+      rw [hs, find_storeDef, hfr]
+      simp [hp, storeDef]
+    | none =>
+      rw [hfr] at hfind
+      simp only [Option.none_or] at hfind
+      have hmem : d ∈ qelib1 := by simpa using List.mem_of_find?_eq_some hfind
+      have hnm : d.name = n := by simpa using List.find?_some hfind
+      have hk := List.all_eq_true.mp qelib_ok d hmem
+      simp only [qelibEntryOk, Bool.and_eq_true, beq_iff_eq] at hk
+      rw [← hnm, hk.1.1.1.2]
+  simp only [bodyCheck, h1, Bool.not_true, Bool.false_eq_true, if_false, strDup_of_nodup qs hnd, hexp, hpl, hql,
+    and_self, not_true_eq_false, findSome_params_none params ps hsup hcl]
+
+theorem bodyCheck_builtin_U (defs : List GateDef) (params qargs : List Str) (a b l : Expr) (x : Str)
+    (hsup : [a, b, l].all Expr.supported = true) (hcl : [a, b, l].all (Expr.closedIn params) = true)
+    (hx : x ∈ qargs) : bodyCheck defs params qargs cs!"U" [a, b, l] [x] = none := by
+  have h1 : [x].all qargs.contains = true := by simpa using hx
+  simp only [bodyCheck, h1, Bool.not_true, Bool.false_eq_true, if_false, strDup, List.contains_nil, Bool.or_self,
+    expectedSig, builtin_ok.2.2.1, List.length_cons, List.length_nil, and_self, not_true_eq_false,
+    findSome_params_none params [a, b, l] hsup hcl]
+
+theorem bodyCheck_builtin_CX (defs : List GateDef) (params qargs : List Str) (a b : Str)
+    (ha : a ∈ qargs) (hb : b ∈ qargs) (hab : a ≠ b) : bodyCheck defs params qargs cs!"CX" [] [a, b] = none := by
+  have h1 : [a, b].all qargs.contains = true := by simp [ha, hb]
+  have h2 : strDup [a, b] = false := strDup_of_nodup _ (by simpa using hab)
+  simp only [bodyCheck, h1, Bool.not_true, Bool.false_eq_true, if_false, h2, expectedSig, builtin_ok.2.2.2,
+    List.length_cons, List.length_nil, and_self, not_true_eq_false, List.findSome?_nil]
+
 /-- what `_initialize_pass` keeps of a body the standard accepts: everything but the barriers -/
-theorem bodyPass_ok (rest : List GateDef) (params qargs : List Str) : ∀ body : List GOp,
+theorem bodyPass_ok (rest : List GateDef) (hrest : DefsOk rest) (params qargs : List Str) : ∀ body : List GOp,
     gopsOk (rest ++ qelib1.reverse) params qargs body = .ok () →
-    bodyPass (rest.map storeDef) qargs body = .ok (body.filter noBarrier) := by
+    bodyPass (rest.map storeDef) params qargs body = .ok (body.filter noBarrier) := by
   intro body
   induction body with
   | nil => intro _; rfl
@@ -528,8 +630,16 @@ theorem bodyPass_ok (rest : List GateDef) (params qargs : List Str) : ∀ body :
       exact h
     have := ih hgs
     cases g with
-    | U a b l x => simp [bodyPass, this, noBarrier, Except.map, List.filter_cons]
-    | CX a b => simp [bodyPass, this, noBarrier, Except.map, List.filter_cons]
+    | U a b l x =>
+      obtain ⟨hsup, hcl, hx⟩ := gopOk_U hg
+      have hc := bodyCheck_builtin_U (rest.map storeDef) params qargs a b l x hsup hcl hx
+      cases hflag : Gen.bodyChecked <;>
+        simp [bodyPass, this, noBarrier, Except.map, List.filter_cons, hflag, hc]
+    | CX a b =>
+      obtain ⟨ha, hb, hab⟩ := gopOk_CX hg
+      have hc := bodyCheck_builtin_CX (rest.map storeDef) params qargs a b ha hb hab
+      cases hflag : Gen.bodyChecked <;>
+        simp [bodyPass, this, noBarrier, Except.map, List.filter_cons, hflag, hc]
     | barrier qs =>
       have hq : qs.all qargs.contains = true := by
         simp only [gopOk] at hg
@@ -538,7 +648,8 @@ theorem bodyPass_ok (rest : List GateDef) (params qargs : List Str) : ∀ body :
         · cases hg
       simp [bodyPass, this, noBarrier, hq, List.filter_cons]
     | call n ps qs =>
-      obtain ⟨d, hfind, _⟩ := gopOk_call hg
+      obtain ⟨d, hfind, hpl, hql, hsup, hcl, hsub, hnd⟩ := gopOk_call hg
+      have hc := bodyCheck_ok rest hrest params qargs n ps qs d hfind hpl hql hsup hcl hsub hnd
       have hgn : isGateName (rest.map storeDef) n = true := by
         rw [List.find?_append] at hfind
         cases hfr : rest.find? (fun x => x.name == n) with
@@ -553,7 +664,8 @@ theorem bodyPass_ok (rest : List GateDef) (params qargs : List Str) : ∀ body :
           rw [hfr] at hfind
           simp only [Option.none_or] at hfind
           simp [isGateName, qelib_predefined hfind]
-      simp [bodyPass, hgn, this, noBarrier, Except.map, List.filter_cons]
+      cases hflag : Gen.bodyChecked <;>
+        simp [bodyPass, hgn, this, noBarrier, Except.map, List.filter_cons, hflag, hc]
 
 /-- the definitions in program order: both passes record them, newest first -/
 theorem gdefs_passes : ∀ (gdefs : List GateDef) (U0 : List GateDef) (st : Init) (env env' : Env)
@@ -579,7 +691,7 @@ theorem gdefs_passes : ∀ (gdefs : List GateDef) (U0 : List GateDef) (st : Init
     have hok' : DefsOk (ds.reverse ++ (d :: U0)) := by
       simpa [List.reverse_cons, List.append_assoc] using hok
     have hdOk : DefsOk (d :: U0) := defsOk_suffix ds.reverse (d :: U0) hok'
-    obtain ⟨_, _, _, _, hgops, _, _⟩ := hdOk
+    obtain ⟨_, _, _, _, hgops, _, hU0⟩ := hdOk
     obtain ⟨e1, o1, o2, h1, h2, rfl⟩ := flattenFrom_cons_inv (by simpa using h)
     -- the standard records the definition
     have he1 : e1 = { env with gates := d :: env.gates } ∧ o1 = [] := by
@@ -595,7 +707,7 @@ theorem gdefs_passes : ∀ (gdefs : List GateDef) (U0 : List GateDef) (st : Init
             exact ⟨h1.1.symm, h1.2.symm⟩
     obtain ⟨rfl, rfl⟩ := he1
     -- the importer stores it without the barriers
-    have hbp := bodyPass_ok U0 d.params d.qargs d.body hgops
+    have hbp := bodyPass_ok U0 hU0 d.params d.qargs d.body hgops
     have hne : ((d.body.filter noBarrier).isEmpty && !Gen.emptyBodyOk) = false := by
       rcases hbody with hb | hb
       · simp [hb]
